@@ -1006,6 +1006,8 @@ def select_c07(tier):
     import extra_sources
     fixed = corpus_std() + corpus_spec() + corpus_examples() + [dict(p) for p in PROBES]
     fixed += [{"id": "extra:%d" % i, "lines": [x], "source": "generated"} for i, x in enumerate(extra_sources.EXTRA_SOURCES)]
+    # value-producing terms without an input, in every position where a chain starts with nothing flowing in
+    fixed += [{"id": "noinput:%d" % i, "lines": [x], "source": "generated"} for i, x in enumerate(extra_sources.vm_sources())]
     info = {"test_call_sites": sites, "test_call_sites_unread": unread, "test_sessions": len(tests),
             "test_other_literals": len(loose)}
     # Both tiers take the WHOLE corpus.  thorough analyses every function of every image; quick
